@@ -115,15 +115,16 @@ def c16_group(seed, idx, algo):
             base.fail("C16", "variant-failed", nm, algo=algo); out.append(v); continue
         mapped = [[a[j] * x + b[j] for j, x in enumerate(p)] for p in base.trace["points"]]
         ml = None if base.trace["last"] is None else [a[j] * x + b[j] for j, x in enumerate(base.trace["last"])]
-        tol = 0.0 if is_exact else 1e-9
-        if tol and any(abs(b[j]) > 0 for j in range(d)):
-            # translation of a non-dyadic configuration: compare relative to the box size
+        if is_exact:
+            ok = same_points(mapped, v.trace["points"]) and same_points([ml], [v.trace["last"]])
+        else:
+            # inexact map: compare to 1e-9 relative to the size of the image box in each dimension
+            scale = [max(abs(lo), abs(hi), abs(hi - lo)) for lo, hi in nb]
+
             def close(p, q):
-                return all(abs(x - y) <= 1e-9 * max(abs(x), abs(y), abs(b[j]), 1e-300) for j, (x, y) in enumerate(zip(p, q)))
+                return len(p) == len(q) and all(abs(x - y) <= 1e-9 * scale[j] for j, (x, y) in enumerate(zip(p, q)))
             ok = len(mapped) == len(v.trace["points"]) and all(close(p, q) for p, q in zip(mapped, v.trace["points"]))
             ok = ok and ((ml is None) == (v.trace["last"] is None)) and (ml is None or close(ml, v.trace["last"]))
-        else:
-            ok = same_points(mapped, v.trace["points"], tol) and same_points([ml], [v.trace["last"]], tol)
         if not ok:
             i = first_diff_idx(mapped, v.trace["points"])
             base.fail("C16", "not-equivariant", f"map {nm} (a={a}, b={b}, exact={is_exact}): image run differs from the mapped run at round {i}: "
